@@ -75,11 +75,12 @@ pub async fn broker(
                 if send_diagnostics {
                     notify(iotx.clone(), uri.clone(), &doc).await;
                 }
-                docs.insert(uri.path().to_string(), doc);
+                // documents are identified by their complete URI
+                docs.insert(uri.to_string(), doc);
             }
             DocumentRequest::Change(uri, changes) => {
                 use std::collections::hash_map::Entry;
-                match docs.entry(uri.path().to_string()) {
+                match docs.entry(uri.to_string()) {
                     Entry::Occupied(mut entry) => {
                         let doc = entry.get().clone();
                         let text_changes = to_text_changes(changes, doc.text.clone());
@@ -93,10 +94,10 @@ pub async fn broker(
                 };
             }
             DocumentRequest::Close(uri) => {
-                docs.remove(uri.path());
+                docs.remove(uri.as_str());
             }
             DocumentRequest::GetInfo(uri, tx) => {
-                let doc = docs.get(uri.path()).cloned();
+                let doc = docs.get(uri.as_str()).cloned();
                 tx.send(doc).expect("Cannot send messages");
             }
         }
